@@ -6,7 +6,7 @@ LEVEL = 'other'
 EXPLANATION = (
     'Decides the implication itself as a path property of both engines: every Ok return of patch is '
     'reachable only through (verify_checksum == false) or through the equal edge of '
-    'finalize(hasher) == delta.checksum, where the hasher was fed exactly the buffers that were written '
+    'finalize(hasher) == delta.checksum (R3), where the hasher was fed exactly the buffers that were written '
     '(R2), after Delta::validate returned Ok (R1, R5), copies being read_exact into a buffer sized by the op '
     '(R4); the CLI maps Err to a failure exit (R7); no crate-local panic site is reachable from the patch entry '
     'points on a hostile delta (R6). Not decided: nothing further at this level (BLAKE3 and Write::write_all are trusted).')
